@@ -57,6 +57,7 @@ package priority
 //@   requires [C01 C15] capacity-never-exceeded: gInfl < dsc.opts.HandlersQuantity
 //@   requires [C15] no-delivery-after-a-divider-fault: !gDivErr
 //@   requires [C16] nothing-after-stop-returned: !gCompleted
+//@   requires [C05] never-more-than-its-share-under-saturation: gInflP[v.Priority] < dsc.strategic[v.Priority]
 //@   requires [C02] delivers-the-item-just-received-under-its-priority: gPendSet && v.Priority == gPendP && v.Item == gIn[gPendP][gInN[gPendP] - 1]
 //@   requires [C02] exactly-once-in-order: gOutNP[gPendP] < gInN[gPendP] && (gStop || gOutNP[gPendP] + 1 == gInN[gPendP])
 //@   effect gInfl := gInfl + 1
@@ -65,6 +66,7 @@ package priority
 //@   effect gPendSet := false
 
 //@ event recv dsc.inputs[$p].Channel (item, opened)
+//@   assume-env [C05] saturated-every-input-has-data-waiting: opened
 //@   requires [C02 C17] reads-only-configured-inputs: in(gPset, p)
 //@   requires [C02] no-received-item-is-dropped: gStop || !gPendSet
 //@   effect gClosedIn := ite(opened, gClosedIn, store(gClosedIn, p, true))
@@ -81,18 +83,26 @@ package priority
 //@ event recv dsc.interrupter.C ()
 //@   requires [C06 C07] the-interrupt-that-bounds-the-wait-is-armed: !gIntStopped
 
+// C05 is quantified over the release histories of a running, saturated discipline with a fixed
+// configuration: no stop request, no AddInput / RemoveInput, and (in io) never an input without data.
 //@ event recv dsc.breaker.IsBreaked() ()
+//@   assume-env [C05] running-no-stop-request: false
 //@   effect gStop := true
 //@ event recv dsc.opts.Ctx.Done() ()
+//@   assume-env [C05] running-no-stop-request: false
 //@   effect gStop := true
+//@ event default select in (*Discipline).io
+//@   assume-env [C05] saturated-every-input-has-data-waiting: false
 //@ event recv dsc.graceful.IsBreaked() ()
 //@   effect gGraceful := true
 
 // AddInput / RemoveInput requests: the set of configured priorities changes here.
 //@ event recv dsc.inputAdds (add)
+//@   assume-env [C05] configuration-fixed-since-creation: false
 //@   effect gPset := store(gPset, add.priority, true)
 //@   effect gClosedIn := store(gClosedIn, add.priority, false)
 //@ event recv dsc.inputRmvs (p)
+//@   assume-env [C05] configuration-fixed-since-creation: false
 //@   effect gPset := store(gPset, p, false)
 
 // The API side of the requests (run by the caller's goroutine): what is asked for is what was passed.
@@ -152,8 +162,8 @@ package priority
 //@   modifies content(distribution), gDivErr
 //@   ensures [*] returns-the-map-it-was-given: distribution != nil ==> result == distribution
 //@   ensures [*] or-a-new-one: distribution == nil ==> (result == nil || fresh(result))
-//@   ensures [C06] sum-rule-presupposed-by-the-property: msum(result) == old(msum(distribution)) + ite(len(priorities) > 0, dividend, 0)
-//@   ensures [C06] frame-rule-presupposed-by-the-property: forall k :: !in(pset(priorities, len(priorities)), k) ==> (result[k] == old(distribution[k]) && (dom(result, k) <==> old(dom(distribution, k))))
+//@   ensures [C05 C06] sum-rule-presupposed-by-the-property: msum(result) == old(msum(distribution)) + ite(len(priorities) > 0, dividend, 0)
+//@   ensures [C05 C06] frame-rule-presupposed-by-the-property: forall k :: !in(pset(priorities, len(priorities)), k) ==> (result[k] == old(distribution[k]) && (dom(result, k) <==> old(dom(distribution, k))))
 //@   ensures [C02 C07 C15] (distribution != nil) ==> (gDivErr <==> (old(gDivErr) || (msum(distribution) != old(msum(distribution)) && msum(distribution) - old(msum(distribution)) != dividend)))
 //@   ensures [C02 C07 C15] (distribution == nil) ==> (gDivErr == old(gDivErr))
 //@   ensures [* C01 C15] unchecked-divisions-obey-the-sum-rule: distribution == nil ==> (msum(result) == 0 || msum(result) == dividend)
@@ -174,6 +184,21 @@ package priority
 //@   [C06] shares-sum-to-handlers-quantity: msum(dsc.strategic) == ite(len(dsc.priorities) > 0, gH, 0)
 //@   [C06] forall k :: dom(dsc.strategic, k) ==> in(pset(dsc.priorities, len(dsc.priorities)), k)
 
+// C05 (saturation, fixed configuration): what WF does not say about the tables.
+//@ pred WF5(dsc)
+//@   [C05] saturation-is-stated-for-buffered-inputs: forall k :: dom(dsc.inputs, k) ==> (cap(dsc.inputs[k].Channel) != 0 && !dsc.inputs[k].Drained)
+//@   [C05] len(dsc.priorities) > 0
+//@   [C05] shares-sum-to-handlers-quantity: msum(dsc.strategic) == gH
+//@   [C05] forall k :: dom(dsc.strategic, k) ==> in(pset(dsc.priorities, len(dsc.priorities)), k)
+//@   [C05] forall k :: dom(dsc.actual, k) ==> in(pset(dsc.priorities, len(dsc.priorities)), k)
+
+// C05: no priority holds more than its share (SAT); during a round what is in flight plus what is planned stays within the share (ROUND).
+//@ pred SAT(dsc)
+//@   [C05] forall j :: 0 <= j && j < len(dsc.priorities) ==> dsc.actual[dsc.priorities[j]] <= dsc.strategic[dsc.priorities[j]]
+//@ pred ROUND(dsc)
+//@   [C05] forall j :: 0 <= j && j < len(dsc.priorities) ==> dsc.actual[dsc.priorities[j]] + dsc.tactic[dsc.priorities[j]] == dsc.strategic[dsc.priorities[j]]
+//@   [C05] forall k :: !in(pset(dsc.priorities, len(dsc.priorities)), k) ==> dsc.tactic[k] == 0
+
 // The round invariant: what is in flight plus what is planned never exceeds the capacity.
 //@ pred RINV(dsc)
 //@   [* C01] msum(dsc.actual) + msum(dsc.tactic) <= gH
@@ -193,6 +218,7 @@ package priority
 
 //@ func (*Discipline).increaseActual
 //@   requires [*] dsc != nil && dsc.actual != nil
+//@   ensures [C05] forall k :: dom(dsc.actual, k) <==> (old(dom(dsc.actual, k)) || k == priority)
 //@   requires [*] dsc.actual[priority] < two64 - 1
 //@   modifies content(dsc.actual)
 //@   ensures [* C01] dsc.actual[priority] == old(dsc.actual[priority]) + 1 && msum(dsc.actual) == old(msum(dsc.actual)) + 1
@@ -200,6 +226,7 @@ package priority
 
 //@ func (*Discipline).decreaseActual
 //@   requires [*] dsc != nil && dsc.actual != nil
+//@   ensures [C05] forall k :: dom(dsc.actual, k) <==> old(dom(dsc.actual, k))
 //@   requires [* C01] dsc.actual[priority] >= 1
 //@   modifies content(dsc.actual)
 //@   ensures [* C01] dsc.actual[priority] == old(dsc.actual[priority]) - 1 && msum(dsc.actual) == old(msum(dsc.actual)) - 1
@@ -221,18 +248,26 @@ package priority
 
 //@ func (*Discipline).calcTacticByAddUpToStrategic
 //@   requires [*] WF(dsc)
+//@   requires [C05] WF5(dsc)
+//@   ensures [C05] result ==> (forall k :: !in(pset(dsc.priorities, len(dsc.priorities)), k) ==> dsc.tactic[k] == 0)
+//@   ensures [C05] within-shares-means-proceed: ((forall j :: 0 <= j && j < len(dsc.priorities) ==> dsc.actual[dsc.priorities[j]] <= dsc.strategic[dsc.priorities[j]]) && vacants == gH - msum(dsc.actual)) ==> result
+//@   ensures [C05] result ==> (forall j :: 0 <= j && j < len(dsc.priorities) ==> dsc.tactic[dsc.priorities[j]] == dsc.strategic[dsc.priorities[j]] - dsc.actual[dsc.priorities[j]])
 //@   modifies [C01] content(dsc.tactic)
 //@   ensures [* C01] result ==> msum(dsc.tactic) == vacants
 //@   ensures [C06] nothing-in-flight-means-the-shares-are-picked: (msum(dsc.actual) == 0 && vacants == gH && len(dsc.priorities) > 0) ==> result
 //@   loop 0
 //@     invariant [*] picked == msum(dsc.tactic)
-//@     invariant [C06] picked + msumR(dsc.actual, pset(dsc.priorities, $i)) == msumR(dsc.strategic, pset(dsc.priorities, $i))
+//@     invariant [C05 C06] picked + msumR(dsc.actual, pset(dsc.priorities, $i)) == msumR(dsc.strategic, pset(dsc.priorities, $i))
+//@     invariant [C05] forall k :: !in(pset(dsc.priorities, len(dsc.priorities)), k) ==> dsc.tactic[k] == 0
+//@     invariant [C05] forall j :: 0 <= j && j < $i ==> (dsc.actual[dsc.priorities[j]] <= dsc.strategic[dsc.priorities[j]] && dsc.tactic[dsc.priorities[j]] == dsc.strategic[dsc.priorities[j]] - dsc.actual[dsc.priorities[j]])
 //@     invariant [*] no-wrap: picked <= msumR(dsc.strategic, pset(dsc.priorities, $i))
 //@     invariant [*] forall j :: $i <= j && j < len(dsc.priorities) ==> dsc.tactic[dsc.priorities[j]] == 0
 
 //@ func (*Discipline).updateUncrowded
 //@   requires [*] WF(dsc)
 //@   ensures [*] WF(dsc)
+//@   requires [C05] WF5(dsc)
+//@   ensures [C05] WF5(dsc)
 //@   modifies [C01] dsc.uncrowded, anyelems(dsc.uncrowded)
 //@   ensures [* C15] strictlyDesc(dsc.uncrowded) && allIn(dsc.uncrowded, gPset)
 //@   ensures [*] dsc.uncrowded.arr == 0 || dsc.uncrowded.arr != dsc.priorities.arr
@@ -245,6 +280,8 @@ package priority
 //@ func (*Discipline).updateUseful
 //@   requires [*] WF(dsc)
 //@   ensures [*] WF(dsc)
+//@   requires [C05] WF5(dsc)
+//@   ensures [C05] WF5(dsc)
 //@   modifies [C01] dsc.useful, anyelems(dsc.useful)
 //@   ensures [* C15] strictlyDesc(dsc.useful) && allIn(dsc.useful, gPset)
 //@   ensures [*] dsc.useful.arr == 0 || dsc.useful.arr != dsc.priorities.arr
@@ -256,6 +293,8 @@ package priority
 //@ func (*Discipline).updateUsefulLikeUncrowded
 //@   requires [*] WF(dsc)
 //@   ensures [*] WF(dsc)
+//@   requires [C05] WF5(dsc)
+//@   ensures [C05] WF5(dsc)
 //@   modifies [C01] dsc.useful, anyelems(dsc.useful)
 //@   ensures [* C15] strictlyDesc(dsc.useful) && allIn(dsc.useful, gPset)
 //@   ensures [*] dsc.useful.arr == 0 || dsc.useful.arr != dsc.priorities.arr
@@ -273,6 +312,8 @@ package priority
 //@ func (*Discipline).calcTacticBase
 //@   requires [*] WF(dsc)
 //@   ensures [*] WF(dsc)
+//@   requires [C05] WF5(dsc)
+//@   ensures [C05] WF5(dsc)
 //@   requires [* C15] vacants <= gH
 //@   modifies [C01] content(dsc.tactic), dsc.uncrowded, anyelems(dsc.uncrowded), gDivErr
 //@   ensures [* C01] result1 == nil ==> (msum(dsc.tactic) == 0 || msum(dsc.tactic) == vacants)
@@ -284,6 +325,9 @@ package priority
 
 //@ func (*Discipline).calcTactic
 //@   requires [*] WF(dsc)
+//@   requires [C05] WF5(dsc)
+//@   requires [C05] SAT(dsc)
+//@   ensures [C05] result1 == nil && (result0 ==> ROUND(dsc)) && SAT(dsc) && WF5(dsc)
 //@   ensures [C06] nothing-in-flight-means-proceed: old(gInfl) == 0 ==> (result1 != nil || result0)
 //@   ensures [*] WF(dsc)
 //@   modifies [C01] content(dsc.tactic), dsc.uncrowded, anyelems(dsc.uncrowded), gDivErr
@@ -302,6 +346,13 @@ package priority
 
 //@ func (*Discipline).recalcTactic
 //@   requires [*] WF(dsc)
+//@   requires [C05] WF5(dsc)
+//@   requires [C05] ROUND(dsc)
+//@   requires [C05] (forall k :: dsc.tactic[k] == 0)
+//@   ensures [C05] no-error: result1 == nil
+//@   ensures [C05] nothing-left: forall k :: dsc.tactic[k] == 0
+//@   ensures [C05] ROUND(dsc)
+//@   ensures [C05] WF5(dsc)
 //@   requires [* C01] RINV(dsc)
 //@   modifies [C01] content(dsc.tactic), dsc.useful, anyelems(dsc.useful), gDivErr
 //@   ensures [*] WF(dsc)
@@ -343,8 +394,9 @@ package priority
 //@   ensures [C02 C07 C15] fault-is-reported: (gDivErr && !old(gDivErr)) ==> result == ErrDividerBad
 //@   ensures [C02 C07 C15] error-only-on-fault: result != nil ==> gDivErr
 //@   ensures [C02 C07 C15] old(gDivErr) ==> gDivErr
-//@   ensures [C06] divider-sum-rule: msum(distribution) == old(msum(distribution)) + ite(len(priorities) > 0, dividend, 0)
-//@   ensures [C06] good-divider-no-error: result == nil
+//@   ensures [C05] divider-frame-rule: forall k :: !in(pset(priorities, len(priorities)), k) ==> (distribution[k] == old(distribution[k]) && (dom(distribution, k) <==> old(dom(distribution, k))))
+//@   ensures [C05 C06] divider-sum-rule: msum(distribution) == old(msum(distribution)) + ite(len(priorities) > 0, dividend, 0)
+//@   ensures [C05 C06] good-divider-no-error: result == nil
 
 //@ func (*Discipline).calcVacants
 //@   requires [*] WF(dsc)
@@ -356,13 +408,24 @@ package priority
 
 //@ func (*Discipline).clearActual
 //@   requires [*] WF(dsc)
+//@   requires [C05] WF5(dsc)
+//@   requires [C05] SAT(dsc)
+//@   ensures [C05] WF5(dsc)
+//@   ensures [C05] SAT(dsc)
 //@   modifies content(dsc.actual)
 //@   ensures [*] WF(dsc)
 //@   loop 0
 //@     invariant [*] WF(dsc)
+//@     invariant [C05] WF5(dsc)
+//@     invariant [C05] SAT(dsc)
 
 //@ func (*Discipline).getOneFeedback
 //@   requires [*] WF(dsc)
+//@   requires [C05] WF5(dsc)
+//@   requires [C05] SAT(dsc)
+//@   ensures [C05] WF5(dsc)
+//@   ensures [C05] SAT(dsc)
+//@   ensures [C05] !result
 //@   requires [C06] gInfl > 0
 //@   modifies content(dsc.actual), gInfl, gInflP, gClock, gStop
 //@   ensures [*] WF(dsc)
@@ -373,6 +436,9 @@ package priority
 
 //@ func (*Discipline).waitCalcTactic
 //@   requires [*] WF(dsc)
+//@   requires [C05] WF5(dsc)
+//@   requires [C05] SAT(dsc)
+//@   ensures [C05] result1 == nil && !result0 && ROUND(dsc) && WF5(dsc)
 //@   modifies content(dsc.tactic), content(dsc.actual), dsc.uncrowded, anyelems(dsc.uncrowded), gDivErr, gInfl, gInflP, gClock, gStop
 //@   ensures [*] WF(dsc)
 //@   ensures [* C01] (result1 == nil && !result0) ==> RINV(dsc)
@@ -383,6 +449,8 @@ package priority
 //@   ensures [* C16] result0 ==> gStop
 //@   loop 0
 //@     invariant [*] WF(dsc)
+//@     invariant [C05] WF5(dsc)
+//@     invariant [C05] SAT(dsc)
 //@     invariant [C02 C07 C15] gDivErr == old(gDivErr)
 //@     invariant [* C16] old(gStop) ==> gStop
 
@@ -392,6 +460,12 @@ package priority
 //@   requires [C02] forall k :: gOutNP[k] <= gInN[k]
 //@   ensures [C02] SEQ2(dsc)
 //@   requires [*] WF(dsc)
+//@   requires [C05] WF5(dsc)
+//@   requires [C05] ROUND(dsc)
+//@   ensures [C05] WF5(dsc)
+//@   ensures [C05] ROUND(dsc)
+//@   ensures [C05] result == 1
+//@   requires [C05] in(pset(dsc.priorities, len(dsc.priorities)), priority)
 //@   requires [* C01] RINV(dsc)
 //@   requires [* C01] dsc.tactic[priority] >= 1
 //@   requires [C02 C07 C15] !gDivErr
@@ -409,6 +483,13 @@ package priority
 //@   requires [C02] SEQ2(dsc)
 //@   ensures [C02] SEQ2(dsc)
 //@   requires [*] WF(dsc)
+//@   requires [C05] WF5(dsc)
+//@   requires [C05] ROUND(dsc)
+//@   ensures [C05] WF5(dsc)
+//@   ensures [C05] ROUND(dsc)
+//@   ensures [C05] dsc.tactic[priority] == 0
+//@   ensures [C05] forall k :: k != priority ==> dsc.tactic[k] == old(dsc.tactic[k])
+//@   requires [C05] in(pset(dsc.priorities, len(dsc.priorities)), priority)
 //@   requires [*] in(gPset, priority)
 //@   requires [* C01] RINV(dsc)
 //@   requires [C02 C07 C15] !gDivErr
@@ -421,6 +502,9 @@ package priority
 //@   ensures [C02 C06 C07] DRAINED(dsc)
 //@   ensures [* C16] old(gStop) ==> gStop
 //@   loop 0
+//@     invariant [C05] WF5(dsc)
+//@     invariant [C05] ROUND(dsc)
+//@     invariant [C05] forall k :: k != priority ==> dsc.tactic[k] == old(dsc.tactic[k])
 //@     invariant [C02] SEQ2(dsc)
 //@     invariant [*] WF(dsc)
 //@     invariant [* C01] RINV(dsc)
@@ -433,6 +517,12 @@ package priority
 //@   requires [C02] SEQ2(dsc)
 //@   ensures [C02] SEQ2(dsc)
 //@   requires [*] WF(dsc)
+//@   requires [C05] WF5(dsc)
+//@   requires [C05] ROUND(dsc)
+//@   ensures [C05] WF5(dsc)
+//@   ensures [C05] ROUND(dsc)
+//@   ensures [C05] forall k :: k != priority ==> dsc.tactic[k] == old(dsc.tactic[k])
+//@   requires [C05] in(pset(dsc.priorities, len(dsc.priorities)), priority)
 //@   requires [*] in(gPset, priority)
 //@   requires [* C01] RINV(dsc)
 //@   requires [C02 C07 C15] !gDivErr
@@ -445,6 +535,9 @@ package priority
 //@   ensures [C02 C06 C07] DRAINED(dsc)
 //@   ensures [* C16] old(gStop) ==> gStop
 //@   loop 0
+//@     invariant [C05] WF5(dsc)
+//@     invariant [C05] ROUND(dsc)
+//@     invariant [C05] forall k :: k != priority ==> dsc.tactic[k] == old(dsc.tactic[k])
 //@     invariant [C02] SEQ2(dsc)
 //@     invariant [*] WF(dsc)
 //@     invariant [* C01] RINV(dsc)
@@ -457,6 +550,11 @@ package priority
 //@   requires [C02] SEQ2(dsc)
 //@   ensures [C02] SEQ2(dsc)
 //@   requires [*] WF(dsc)
+//@   requires [C05] WF5(dsc)
+//@   requires [C05] ROUND(dsc)
+//@   ensures [C05] WF5(dsc)
+//@   ensures [C05] ROUND(dsc)
+//@   ensures [C05] (forall k :: dsc.tactic[k] == 0)
 //@   requires [* C01] RINV(dsc)
 //@   requires [C02 C07 C15] !gDivErr
 //@   requires [C16] !gCompleted
@@ -468,6 +566,9 @@ package priority
 //@   ensures [C02 C06 C07] DRAINED(dsc)
 //@   ensures [* C16] old(gStop) ==> gStop
 //@   loop 0
+//@     invariant [C05] WF5(dsc)
+//@     invariant [C05] ROUND(dsc)
+//@     invariant [C05] (forall j :: 0 <= j && j < $i ==> dsc.tactic[dsc.priorities[j]] == 0)
 //@     invariant [C02] SEQ2(dsc)
 //@     invariant [*] WF(dsc)
 //@     invariant [* C01] RINV(dsc)
@@ -477,20 +578,32 @@ package priority
 
 //@ func (*Discipline).getLimitedFeedback
 //@   requires [*] WF(dsc)
+//@   requires [C05] WF5(dsc)
+//@   requires [C05] SAT(dsc)
+//@   ensures [C05] WF5(dsc)
+//@   ensures [C05] SAT(dsc)
 //@   modifies content(dsc.actual), gInfl, gInflP, gClock, gStop
 //@   ensures [*] WF(dsc)
 //@   ensures [* C16] old(gStop) ==> gStop
 //@   loop 0
+//@     invariant [C05] WF5(dsc)
+//@     invariant [C05] SAT(dsc)
 //@     invariant [*] WF(dsc)
 //@     invariant [* C16] old(gStop) ==> gStop
 
 //@ func (*Discipline).waitZeroActual
 //@   requires [*] WF(dsc)
+//@   requires [C05] WF5(dsc)
+//@   requires [C05] SAT(dsc)
+//@   ensures [C05] WF5(dsc)
+//@   ensures [C05] SAT(dsc)
 //@   modifies content(dsc.actual), gInfl, gInflP, gClock, gStop
 //@   ensures [*] WF(dsc)
 //@   ensures [* C07 C15] gStop || gInfl == 0
 //@   ensures [* C16] old(gStop) ==> gStop
 //@   loop 0
+//@     invariant [C05] WF5(dsc)
+//@     invariant [C05] SAT(dsc)
 //@     invariant [*] WF(dsc)
 //@     invariant [* C16] old(gStop) ==> gStop
 
@@ -499,6 +612,11 @@ package priority
 //@   requires [C02] SEQ2(dsc)
 //@   ensures [C02] SEQ2(dsc)
 //@   requires [*] WF(dsc)
+//@   requires [C05] WF5(dsc)
+//@   requires [C05] SAT(dsc)
+//@   ensures [C05] exactly-its-share-after-a-round: result1 == nil && (forall j :: 0 <= j && j < len(dsc.priorities) ==> dsc.actual[dsc.priorities[j]] == dsc.strategic[dsc.priorities[j]])
+//@   ensures [C05] WF5(dsc)
+//@   ensures [C05] SAT(dsc)
 //@   requires [C02 C07 C15] !gDivErr
 //@   requires [C16] !gCompleted
 //@   requires [C02 C06 C07] DRAINED(dsc)
@@ -554,12 +672,17 @@ package priority
 //@   ensures [*] PLIST(dsc)
 //@   ensures [* C17] forall k :: dom(dsc.inputs, k) <==> (old(dom(dsc.inputs, k)) || k == priority)
 //@   ensures [* C17] forall k :: k != priority ==> dsc.inputs[k] == old(dsc.inputs[k])
+//@   ensures [C05] a-new-priority-is-appended: !old(dom(dsc.inputs, priority)) ==> len(dsc.priorities) == old(len(dsc.priorities)) + 1
 //@   ensures [* C02 C06 C07 C17] registered-channel: dsc.inputs[priority].Channel == channel && !dsc.inputs[priority].Drained
 
 //@ func (*Discipline).updateInputs
 //@   requires [*] WFS(dsc)
 //@   requires [*] PLIST(dsc)
 //@   requires [*] len(dsc.priorities) == 0 && (forall k :: !dom(dsc.inputs, k)) && gPset == domset(inputs)
+//@   requires [C05] saturation-is-stated-for-buffered-inputs: len(inputs) != 0 && (forall k :: dom(inputs, k) ==> cap(inputs[k]) != 0)
+//@   requires [C05] nothing-in-flight-yet: forall k :: !dom(dsc.actual, k)
+//@   ensures [C05] WF5(dsc)
+//@   ensures [C05] SAT(dsc)
 //@   requires [C02 C07 C15] !gDivErr
 //@   modifies [C17 C01] content(dsc.inputs), dsc.priorities, anyelems(dsc.priorities), dsc.strategic, gPerm, gInv, gDivErr
 //@   ensures [*] WF(dsc)
@@ -570,6 +693,8 @@ package priority
 //@     invariant [*] PLIST(dsc)
 //@     invariant [*] forall k :: dom(dsc.inputs, k) <==> in($visited, k)
 //@     invariant [* C02 C07] forall k :: dom(dsc.inputs, k) ==> !dsc.inputs[k].Drained
+//@     invariant [C05] forall k :: dom(dsc.inputs, k) ==> cap(dsc.inputs[k].Channel) != 0
+//@     invariant [C05] len(dsc.priorities) > 0 || (forall k :: !in($visited, k))
 
 // addInput runs right after an AddInput request was received (gPset already contains priority).
 //@ func (*Discipline).addInput
@@ -603,10 +728,13 @@ package priority
 //@   ensures [C02 C07 C15] gDivErr == old(gDivErr)
 
 //@ func (*Discipline).loop
+//@   may-diverge [C05]
 //@   requires [C06 C07] interrupter-armed: !gIntStopped
 //@   requires [C02] SEQ2(dsc)
 //@   ensures [C02] SEQ2(dsc)
 //@   requires [*] WF(dsc)
+//@   requires [C05] WF5(dsc)
+//@   requires [C05] SAT(dsc)
 //@   requires [C02 C07 C15] !gDivErr
 //@   requires [C16] !gCompleted
 //@   requires [C02 C06 C07] DRAINED(dsc)
@@ -619,15 +747,20 @@ package priority
 //@   ensures [C02 C07 C15] result != nil ==> gDivErr
 //@   ensures [C16] !gCompleted
 //@   loop 0
+//@     invariant [C05] WF5(dsc)
+//@     invariant [C05] SAT(dsc)
 //@     invariant [C02] SEQ2(dsc)
 //@     invariant [*] WF(dsc)
 //@     invariant [C02 C07 C15] !gDivErr
 //@     invariant [C02 C06 C07] DRAINED(dsc)
 
 //@ func (*Discipline).main
+//@   may-diverge [C05]
 //@   requires [C06 C07] interrupter-armed: !gIntStopped
 //@   requires [C02] SEQ2(dsc)
 //@   requires [*] WF(dsc)
+//@   requires [C05] WF5(dsc)
+//@   requires [C05] SAT(dsc)
 //@   requires [C02 C07 C15] !gDivErr
 //@   requires [C16] !gCompleted
 //@   requires [C02 C06 C07] DRAINED(dsc)
@@ -646,6 +779,7 @@ package priority
 //@ event go priority.(*Discipline).main
 //@   effect gMainStarted := true
 //@ func New
+//@   requires [C05] saturation-is-stated-for-buffered-inputs: len(opts.Inputs) != 0 && (forall k :: dom(opts.Inputs, k) ==> cap(opts.Inputs[k]) != 0)
 //@   requires [*] ghost-initial-state: !gMainStarted && !gIntStopped && !gPendSet && (forall k :: gInN[k] == 0 && gOutNP[k] == 0) && gInfl == 0 && (forall k :: gInflP[k] == 0) && !gDivErr && !gStop && !gGraceful && !gCompleted && (forall k :: !in(gClosedIn, k)) && gPset == domset(opts.Inputs) && gH == opts.HandlersQuantity
 //@   modifies gMainStarted, gDivErr, gPerm, gInv, anyelems(uint)
 //@   ensures [*] result1 == nil ==> result0 != nil
@@ -781,6 +915,7 @@ package priority
 //@ event go priority.(*Simple).main
 //@   effect gSMainStarted := true
 //@ func NewSimple
+//@   requires [C05] saturation-is-stated-for-buffered-inputs: forall k :: dom(opts.Inputs, k) ==> cap(opts.Inputs[k]) != 0
 //@   requires [*] ghost-initial-state: !gSMainStarted && gSSpawned == 0 && !gSWaited && !gSCancelled && !gSInnerStop
 //@   modifies gSMainStarted, gMainStarted, gDivErr, gPerm, gInv, anyelems(uint), gClock
 //@   ensures [C16] the-goroutine-that-answers-stop-is-running: result1 == nil ==> gSMainStarted
